@@ -11,7 +11,6 @@ package main
 
 import (
 	"encoding/json"
-	"fmt"
 	"io"
 	"log/slog"
 	"runtime"
@@ -33,11 +32,13 @@ func run(c *lib.Ctx) {
 	// and the forced collections of initFiltering (debug.FreeOSMemory) are
 	// several times cheaper without cross-thread stop-the-world hand-shakes.
 	runtime.GOMAXPROCS(1)
-	runSequences(c)
+	// The parser part is cheap; run it first so that a tight budget cuts the
+	// sequence search, not a whole part.
+	runParser(c)
 	if c.Expired() {
 		return
 	}
-	runParser(c)
+	runSequences(c)
 }
 
 func replay(c *lib.Ctx, raw json.RawMessage) string {
@@ -95,14 +96,16 @@ func main() {
 				"distinct_outcomes":             m.Distinct["outcomes"],
 				"distinct_parser_outcomes":      m.Distinct["parser_outcomes"],
 				"max_depth":                     m.Maxes["max_depth"],
-				"rule": "Part 1: BFS (two roots: lists already stored / never downloaded) over histories of {forced refresh of the block side, forced refresh of the allow side (both through the refresh API handler), scheduled refresh 1 h later, scheduled refresh 25 h later (both through periodicallyRefreshFilters), change of the local list file, restart} x per-request answer of the scripted list server {200 L1, 200 L2, 200 same as before, 200 empty, connection error, 404, 500, 200 with body failing before the first byte / mid-line / at a line boundary / after the last line, 200 HTML page, 200 with NUL on line 1 / line 3} on a real DNSFilter with one HTTP block list, one local-file block list and one HTTP allow list; histories are merged only when the dumped implementation state (list files, metadata, verdicts of 13 probe names, clock-relative update times) and the model agree; after every step the stored bytes, inode, rules_count of the status API and the CheckHost verdicts are compared with the model. non-trivial = a step in which a list that has a stored file gets a failing answer, or a list is replaced by new content. Part 2: every text of up to N lines over 14 line kinds x {LF, CRLF, no final newline} through rulelist.Parser; non-trivial = accepted text with at least one rule whose normal form differs from the input",
+				"rule":                          "Part 1: BFS (root 'stored': the three lists already on disk, quick depth 3 / thorough depth 4; root 'fresh': nothing downloaded yet, quick depth 2 / thorough depth 4) over histories of {forced refresh of the block side x 14 answers, forced refresh of the allow side x 14 answers (both through the refresh API handler), scheduled refresh 25 h later and 1 h later x (block answer, allow answer) pairs (through periodicallyRefreshFilters; quick: 6x6 and 4x4 representative pairs, thorough: 14x14 and every pair with one of 4 representatives), change of the local list file to F0/F1/missing/a directory, restart} on a real DNSFilter with one HTTP block list, one local-file block list and one HTTP allow list. Answers of the scripted list server: 200 L1, 200 L2, 200 same as before, 200 empty, connection error, 404, 500, 200 with the body failing (io.ErrUnexpectedEOF) before the first byte / mid-line / at a line boundary / after the last line, 200 HTML page, 200 with NUL on line 1 / line 3. Histories are merged only when the dumped implementation state (list files, metadata incl. checksum and update-age class, verdicts of 13 probe names, stray files) and the model agree; after every step the stored bytes, the inode, rules_count of the status API and the CheckHost verdicts are compared with the model, and the stored file is re-parsed. non-trivial = a step in which a list that has a stored file gets a failing answer, or a list is replaced by new content. Part 2: every text over 14 line kinds x {LF, CRLF, no final newline} through rulelist.Parser (quick: <=4 lines; thorough: <=6 lines over the 13 short kinds plus <=4 lines with a 70 KB line), plus texts of <=3 lines with lines at the scanner's length limit; non-trivial = accepted text with at least one rule whose normal form differs from the input",
 			}
 		},
 		Assumptions: []string{
 			"the reference normal form is: split at LF, drop one trailing CR, trim blanks/tabs, drop empty lines and lines starting with '#' or '!', join with LF; the checksum is CRC-32 (IEEE) over the rule lines as documented in rulelist.ParseResult",
 			"file modification times of replaced list files are set to the virtual clock by the harness (rename stamps them with the kernel clock); they are only read by load() at start-up",
 			"a scheduled refresh attempts a list iff its LastUpdated (read from the implementation before the step) is at least the interval old; whether HTTP lists were attempted is taken from the transport log",
-			fmt.Sprintf("body faults are modelled by an io.Reader that delivers the first k bytes and then returns io.ErrUnexpectedEOF, k in {0, mid-line, line boundary, all}"),
+			"body faults are modelled by an io.Reader that delivers the first k bytes and then returns io.ErrUnexpectedEOF, k in {0, mid-line, line boundary, all}",
+			"update ages enter the state key as classes never/young/due; exact because steps advance the clock by 1 h or 25 h and depth x 1 h is below the 24 h interval",
+			"after a successful refresh that replaced a list the new rules must be in force (demanded by the check's brief; the statement itself only says so for failed refreshes)",
 		},
 	})
 }
